@@ -38,7 +38,7 @@ pub fn dump(o: &ObjectFile) -> String {
             let rs = rs.iter().map(|(a, n)| format!("{:04x}:{}", a, hexs(n.as_bytes()))).collect::<Vec<_>>().join(",");
             let d = match t.source_info() {
                 None => "none".to_string(),
-                Some(si) => format!("M[{}] T{}", t.line_iter().map(|(l, a)| format!("{}:{:04x}", l, a)).collect::<Vec<_>>().join(","), hexs(si.source().as_bytes())),
+                Some(si) => format!("M[{}] T{}", t.verif_line_blocks().iter().map(|(l, b)| format!("{}:{}", l, b.iter().map(|a| format!("{:04x}", a)).collect::<Vec<_>>().join("."))).collect::<Vec<_>>().join(","), hexs(si.source().as_bytes())),
             };
             format!("L[{ls}] R[{rs}] D[{d}]")
         }
